@@ -928,10 +928,17 @@ SPEC = Spec(
         "hand-written model coq/C45/Model.v (tied only as far as the generated cases reach); harness instrumentation "
         "(builtins.__import__ wrapped: for every import requested from jelly.py / reflect.py, the prefixes of the "
         "requested name present in sys.modules afterwards; __new__ of the synthetic classes for instantiation)",
-        "class identity is compared by qualified name in the harness (synthetic modules are purged and re-imported "
-        "for every case)",
+        "class identity is compared by qualified name in the harness in cold mode (synthetic modules are purged and "
+        "re-imported); warm mode uses the real allowedClasses mapping; every case builds three SecurityOptions "
+        "objects (decoys granted everything before and after the policy under test)",
+        "graph half: coq/C45/Graph.v (jel/post = _Jellier reference numbering, unj = _Unjellier + crefutil "
+        "placeholders) is compared on every round-trip case with the real wire s-expression and the real unjellied "
+        "object graph (canonical dump incl. leftover _Tuple/_Dereference placeholders and AssertionError)",
     ],
     assumptions=[
+        "graph round trip: objects are lists, tuples, dicts with atom keys, instances with default state handling "
+        "(no __setstate__/__getstate__ overrides, __dict__ not aliased), atoms and None; the theorem excludes graphs "
+        "with a tuple on a cycle (known findings), the model reproduces the real failures there",
         "no persistentLoad callback; registered unjellyables (unjellyableRegistry) run application code that is outside "
         "the model (modelled as an opaque VReg result); reference/dereference, unicode/boolean/decimal/date/time atoms "
         "are exercised by the round-trip oracle only",
